@@ -16,7 +16,8 @@ def Instr.boring : Instr → Bool
 
 /-- how a non-boring instruction gets into the pending code: pushed by the instruction at the head of `c` -/
 def PushedOK (c c' : Cfg) : Instr → Prop
-  | .callH h d s => (∃ k, c.code.head? = some (.gCall s .live k) ∧ (handlersOf c.L s.cls)[k]? = some (h, d)) ∧ (s.cls, h, d) ∈ c.L.handlers
+  | .callH h d s => (∃ k, c.code.head? = some (.gCall s .live k) ∧ (handlersOf c.L s.cls)[k]? = some (h, d) ∧
+        c'.code = .callH h d s :: .gCall s .live (k + 1) :: c.code.tail) ∧ (s.cls, h, d) ∈ c.L.handlers ∧ c.L.forceQuit = false
   | .gCall s hs _ => (∃ k0, c.code.head? = some (.gCall s hs k0)) ∨
       (∃ q g, c.code.head? = some (.runH q g) ∧ g.sig = s ∧ g.hs = hs ∧ c.L.forceQuit = false)
   | .gDisp q e g => (∃ mode, c.code.head? = some (.gIter q mode)) ∧ ∃ p att batch, Tr.iter q e p att batch ∈ c'.tr ∧ g ∈ batch
@@ -35,6 +36,7 @@ structure StepFacts (c c' : Cfg) : Prop where
   handlers : ∀ x ∈ c.L.handlers, x ∈ c'.L.handlers
   code : ∀ i ∈ c'.code, i.boring = false → i ∈ c.code.tail ∨ PushedOK c c' i
   fq : c.L.forceQuit = true → c.code.head? ≠ some .apprun → c'.L.forceQuit = true
+  fqSet : c.L.forceQuit = false → c'.L.forceQuit = true → c.code.head? = some (.act .forceQuit)
 
 @[simp] theorem rcfg_ok (c : Cfg) : rcfg (.ok c) = c := rfl
 @[simp] theorem rcfg_error (o : Outcome) (c : Cfg) : rcfg (.error (o, c)) = c := rfl
@@ -66,7 +68,8 @@ theorem KeepL.loud {c0 X : Cfg} (t : Tr) (hl : LoudOK c0 t) (h1 : X.L.handlers =
 
 theorem facts_gen {c0 X : Cfg} {ins : Instr} {rest : List Instr} (hc : c0.code = ins :: rest) (hk : KeepL c0 X)
     (hcode : ∀ i ∈ X.code, i.boring = false → i ∈ rest ∨ PushedOK c0 X i) : StepFacts c0 X :=
-  ⟨hk.tr, hk.handlers, fun i hi hb => by rw [hc]; exact hcode i hi hb, fun hf _ => by rw [hk.fq]; exact hf⟩
+  ⟨hk.tr, hk.handlers, fun i hi hb => by rw [hc]; exact hcode i hi hb, fun hf _ => by rw [hk.fq]; exact hf,
+    fun h1 h2 => by rw [hk.fq, h1] at h2; cases h2⟩
 
 theorem facts_push {c0 X : Cfg} {ins : Instr} {rest : List Instr} (hc : c0.code = ins :: rest) (pushed : List Instr)
     (hp : ∀ i ∈ pushed, i.boring = true) (hX : X.code <:+ rest) (hk : Keep c0 X) : StepFacts c0 (push X pushed) := by
@@ -162,7 +165,7 @@ theorem doAct_facts {c0 : Cfg} {a : Act} {rest : List Instr} (hc : c0.code = .ac
     | none => exact facts_push hc _ (by simp [Instr.boring]) s0 k0
     | some cls => exact facts_push hc _ (by simp [Instr.boring]) s0 k0
   | forceQuit =>
-    refine ⟨⟨[_], rfl, by simp [Tr.quiet]⟩, fun x hx => hx, fun i hi _ => ?_, fun _ _ => rfl⟩
+    refine ⟨⟨[_], rfl, by simp [Tr.quiet]⟩, fun x hx => hx, fun i hi _ => ?_, fun _ _ => rfl, fun _ _ => by simp [hc]⟩
     left; rw [hc]; exact hi
   | raiseExit => exact facts_good hc (raise_good _ _) s0 k0
   | raiseErr => exact facts_good hc (raise_good _ _) s0 k0
